@@ -54,5 +54,37 @@ func TestExh_C11(t *testing.T) {
 			}
 		}
 	}
+	// every error class of a failing trunk Read at every byte offset (the socket stays open)
+	m := 0
+	for pi, pl := range plans {
+		for side := 0; side < 2; side++ {
+			dir := 1 - side
+			total := 0
+			for _, l := range pl[dir] {
+				total += muxHdrLen + l
+			}
+			for _, class := range []string{"timeout", "eagain", "eintr", "temporary", "noprogress", "eof", "other"} {
+				for _, withData := range []bool{false, true} {
+					for k := 0; k <= total; k++ {
+						c := C11Case{Kind: "mux", QLen: 4, IDs: []uint32{uint32(17 + pi)},
+							Streams: []C11Stream{{Conn: 0, Dir: 0, Sizes: pl[0], Stalled: k%2 == 1}, {Conn: 0, Dir: 1, Sizes: pl[1]}},
+							Failure: C11Failure{Kind: "read_error", Side: side, CutAfter: int64(k), CutWhere: "sweep", ErrClass: class, ErrWithData: withData},
+							Final:   C11Close{Side: k % 2, Closers: 1 + k%3, Repeat: 1 + k%2}}
+						raw := ev.Snapshot(c)
+						rec.Journal(raw)
+						o := runC11(c)
+						rec.ClearJournal()
+						rec.Record(raw, o)
+						m++
+						if o.Fail != "" {
+							exhFailed.Store(true)
+							t.Fatalf("C11 (sweep): %s\ncase: %s", o.Fail, raw)
+						}
+					}
+				}
+			}
+		}
+	}
+	rec.SetExtra("exhaustive_read_errors", fmt.Sprintf("trunk Read failing once with each of 7 error classes (timeout, EAGAIN, EINTR, temporary, io.ErrNoProgress, io.EOF, other; alone and together with the last bytes) at every byte offset (0..total) of two fixed frame plans, both sides, the socket staying open: %d cases", m))
 	rec.SetExtra("exhaustive_info", fmt.Sprintf("trunk cut at every byte offset (0..total+1) of two fixed frame plans, both sides, failing write (full and half close) and failing read, running and stalled reader: %d cases", n))
 }
